@@ -43,7 +43,8 @@ def register(reg, repo):
               labels={"noattrcheck": True,
                       "site_requires": {"self.asyncio_fn": ["call_star() is args", "call_dstar() is kwargs"]},
                       ("post", 0): "one-call-of-the-asyncio-function-with-the-given-arguments"},
-              post=["callcount('env.fncall') == 1", "result is last_result('env.fncall')"], xpost=["True"]))
+              post=["callcount('env.fncall') == 1", "result is last_result('env.fncall')"],
+              xpost=["raised_by('env.fncall')"]))   # a forwarding wrapper raises only what the wrapped callable raised
     reg.add(C("env.convert", params=["fn"], modifies=["$alloc"], trusted=True, post=["result is not None", "alloc(result)"], xpost=None,
               labels={"keeps_inv": True}, note="convert_asynq_to_async(fn): builds the coroutine function (body under contract separately)"))
 
@@ -97,7 +98,8 @@ def register(reg, repo):
                               "implies(self.instance is None, call_nargs() == 1)",
                               "implies(self.instance is not None, call_nargs() == 2 and call_arg(1) is self.instance)"]},
                           ("post", 0): "binder-prepends-the-bound-instance-iff-there-is-one"},
-                  post=["callcount('env.fncall') == 1", "result is last_result('env.fncall')"], xpost=["True"]))
+                  post=["callcount('env.fncall') == 1", "result is last_result('env.fncall')"],
+              xpost=["raised_by('env.fncall')"]))   # a forwarding wrapper raises only what the wrapped callable raised
 
     reg.add(C(DE + "AsyncAndSyncPairDecorator.__call__", modifies="*",
               calls={"self.sync_fn": "env.fncall", "logger.warning": "env.diag", "inspect.getsourcefile": "env.inspect"},
@@ -110,25 +112,29 @@ def register(reg, repo):
               calls={"self.decorator": "env.fncall"},
               labels={"noattrcheck": True,
                       "site_requires": {"self.decorator": ["call_star() is args", "call_dstar() is kwargs", "call_nargs() == 1"]}},
-              post=["callcount('env.fncall') == 1", "result is last_result('env.fncall')"], xpost=["True"]))
+              post=["callcount('env.fncall') == 1", "result is last_result('env.fncall')"],
+              xpost=["raised_by('env.fncall')"]))   # a forwarding wrapper raises only what the wrapped callable raised
 
     reg.add(C(DE + "AsyncProxyDecorator._call_pure", modifies="*",
               calls={"self.fn": "env.fncall", "self.asyncio": "env.fncall"},
               labels={"noattrcheck": True,
                       "site_requires": {"self.fn": ["call_star() is args", "call_dstar() is kwargs", "call_nargs() == 1"],
                                         "self.asyncio": ["call_star() is args", "call_dstar() is kwargs", "call_nargs() == 1"]}},
-              post=["callcount('env.fncall') == 1", "result is last_result('env.fncall')"], xpost=["True"]))
+              post=["callcount('env.fncall') == 1", "result is last_result('env.fncall')"],
+              xpost=["raised_by('env.fncall')"]))   # a forwarding wrapper raises only what the wrapped callable raised
     reg.add(C(DE + "AsyncAndSyncPairProxyDecorator.__call__", modifies="*",
               calls={"self.sync_fn": "env.fncall"},
               labels={"noattrcheck": True,
                       "site_requires": {"self.sync_fn": ["call_star() is args", "call_dstar() is kwargs", "call_nargs() == 1"]}},
-              post=["callcount('env.fncall') == 1", "result is last_result('env.fncall')"], xpost=["True"]))
+              post=["callcount('env.fncall') == 1", "result is last_result('env.fncall')"],
+              xpost=["raised_by('env.fncall')"]))   # a forwarding wrapper raises only what the wrapped callable raised
 
     reg.add(C(DE + "AsyncWrapper._call_async", modifies="*",
               calls={"self.wrapper_fn": "env.fncall"},
               labels={"noattrcheck": True,
                       "site_requires": {"self.wrapper_fn": ["call_star() is args", "call_dstar() is kwargs", "call_nargs() == 1"]}},
-              post=["callcount('env.fncall') == 1", "result is last_result('env.fncall')"], xpost=["True"]))
+              post=["callcount('env.fncall') == 1", "result is last_result('env.fncall')"],
+              xpost=["raised_by('env.fncall')"]))   # a forwarding wrapper raises only what the wrapped callable raised
     reg.add(C(DE + "AsyncWrapper.asynq", modifies="*",
               labels={"site_requires": {"self._call_async": ["call_arg(1) is args", "call_arg(2) is kwargs"]}},
               post=["result is last_result('" + DE + "AsyncWrapper._call_async')"], xpost=["True"]))
